@@ -2,7 +2,7 @@
    Only pinned statements, closed by [exact lemma], with Print Assumptions. *)
 From Coq Require Import List NArith Bool.
 From FT Require Import Model.Base Model.Local Model.Records Model.Spsc Model.Collector Model.System
-     Proofs.CollectorProofs Proofs.CancelProofs.
+     Proofs.CollectorProofs Proofs.CancelProofs Proofs.DrainProofs Proofs.EndToEndProofs Proofs.WholeProofs.
 Import ListNotations.
 Open Scope N_scope.
 
@@ -54,6 +54,25 @@ Theorem C04_children_carry_no_collect_id :
     alookup h (s_spans s') = Some (Some sp) -> sp_cid sp = None.
 Proof. exact child_calls_use_no_collect_id. Qed.
 
+(* OVER THE SCHEDULER: in any reachable state, cancelable configuration, a cancel of c that is
+   in a registered thread's ring when a cycle begins (its drain interleaved in any way with any
+   threads): whatever else that cycle drains -- the start, span sets, even the commit of the
+   same trace -- its report carries no record produced for c (records are tagged with the
+   collect id they were produced for; the tag is ghost, the report is [map snd]) and c is
+   inactive afterwards, so later span sets of the trace are discarded (C04_cancelled_stays_silent) *)
+Theorem C04_cancel_in_rings_silences_the_trace :
+  forall dbg ringcap stackcap qcap h0 h c,
+    let s := fst (run (sys_init dbg ringcap stackcap qcap) h0) in
+    let s1 := fst (run s (ACBegin :: h)) in
+    s_pc s = PIdle -> s_installed s = true -> no_process h ->
+    s_pc s1 = PDrained -> s_cancelable s1 = true ->
+    (exists t, In (t, CDrop c) (ring_commands s)) ->
+    exists tagged_recs st n,
+      snd (step s1 ACProcess) = OReport (map snd tagged_recs) st n /\
+      (forall r, ~ In (c, r) tagged_recs) /\
+      amem c (s_active (fst (step s1 ACProcess))) = false.
+Proof. exact cancel_in_rings_silences_the_trace. Qed.
+
 Print Assumptions C04_cancel_suppresses.
 Print Assumptions C04_cancel_deactivates.
 Print Assumptions C04_cancelled_stays_silent.
@@ -61,3 +80,4 @@ Print Assumptions C04_default_cancel_noop.
 Print Assumptions C04_cancel_root_is_one_forced_drop.
 Print Assumptions C04_cancel_non_root_changes_nothing.
 Print Assumptions C04_children_carry_no_collect_id.
+Print Assumptions C04_cancel_in_rings_silences_the_trace.
